@@ -76,6 +76,10 @@ pub trait Property: Sync {
     fn extra_evidence(&self, _totals: &BTreeMap<String, u64>) -> serde_json::Value {
         serde_json::Value::Null
     }
+    /// Violations found by a companion engine that reports through a side file (C20 tags).
+    fn external_violations(&self) -> u64 {
+        0
+    }
 }
 
 #[derive(Clone, Debug, Serialize, Deserialize)]
@@ -210,20 +214,27 @@ pub fn minimise<P: Property>(
     let mut cur = case.clone();
     let mut evals = 0;
     let start = Instant::now();
+    // Sweep over the candidate list; after a success, regenerate the list for the smaller case and
+    // resume at the same position (earlier candidates failed and most likely still do). Repeat
+    // sweeps until one makes no progress.
     loop {
         let mut progressed = false;
-        for cand in p.shrink(&cur) {
-            if evals >= budget_evals || start.elapsed().as_secs() > 120 {
+        let mut k = 0;
+        let mut cands = p.shrink(&cur);
+        while k < cands.len() {
+            if evals >= budget_evals || start.elapsed().as_secs() > 180 {
                 return (cur, evals);
             }
             evals += 1;
-            let e = judge(p, &cand, allowed);
-            if let Some(v) = e.violation {
-                if v.class == class {
-                    cur = cand;
-                    progressed = true;
-                    break;
-                }
+            let e = judge(p, &cands[k], allowed);
+            let same = matches!(&e.violation, Some(v) if v.class == class);
+            if same {
+                cur = cands[k].clone();
+                progressed = true;
+                cands = p.shrink(&cur);
+                // do not advance k: the list shifted
+            } else {
+                k += 1;
             }
         }
         if !progressed {
@@ -413,7 +424,7 @@ pub fn run_check<P: Property>(p: &P, opts: &RunOpts) -> i32 {
             v.class,
             v.detail
         );
-        let (min_case, evals) = minimise(p, case, &v.class, 600, &allowed);
+        let (min_case, evals) = minimise(p, case, &v.class, 3000, &allowed);
         let min_eval = judge(p, &min_case, &allowed);
         let min_v = min_eval.violation.clone().unwrap_or_else(|| v.clone());
         println!("minimised with {evals} evaluations: {}", min_v.detail);
@@ -487,7 +498,7 @@ pub fn run_check<P: Property>(p: &P, opts: &RunOpts) -> i32 {
             "coverage": coverage,
             "assumptions": p.assumptions(),
             "wall_s": wall,
-            "violations": violation_count,
+            "violations": violation_count as u64 + p.external_violations(),
         });
         let dir = root.join("evidence");
         let _ = std::fs::create_dir_all(&dir);
